@@ -61,6 +61,9 @@ class Tests:
             for v in vals:
                 if isinstance(v, ast.Constant) and not v.value:
                     kinds.append('false')
+                elif isinstance(v, ast.BoolOp) and isinstance(v.op, ast.And) and any(self.classify(x, depth + 1) in ('eq', 'imp') for x in v.values):
+                    # flag = a and b and code.is_tracing(): the flag is true only if tracing is enabled
+                    kinds.append('imp')
                 else:
                     kinds.append(self.classify(v, depth + 1))
             if all(k in ('eq', 'imp', 'false') for k in kinds) and any(k in ('eq', 'imp') for k in kinds):
